@@ -100,6 +100,36 @@ Section Data.
       + rewrite Ew. apply (ordered_filter x). apply (argsort_ordered x x_fin).
   Qed.
 
+  Lemma sorted_const (bn : Z -> Z) c w : (forall k, In k w -> bn k = c) -> Sorted Z.le (map bn w).
+  Proof.
+    induction w as [|a t IH]; intros H; cbn [map]; constructor.
+    - apply IH. intros k Hk. apply H. right. exact Hk.
+    - destruct t as [|b t']; cbn [map]; constructor.
+      rewrite (H a (or_introl eq_refl)), (H b (or_intror (or_introl eq_refl))). lia.
+  Qed.
+
+  (* a zero bin size (constant data in nbin mode): nothing is counted, the contracts hold *)
+  Theorem contracts_hold_zero eng lo hi m o :
+    finite_opt lo = true -> finite_opt hi = true ->
+    histogram eng x lo hi m = Ok o -> zero_f (p_bsize (o_params o)) = true ->
+    contracts x lo hi o.
+  Proof.
+    intros Flo Fhi H ZB. unfold histogram in H.
+    destruct (limits x (argsort x) lo hi) as [[[dmin dmax] w]|] eqn:L; [|discriminate].
+    destruct (derive dmin dmax m) as [[bs nb]|]; [|discriminate].
+    destruct (nb <? 0); [discriminate|].
+    destruct (match eng with EngC => chist (binnum x dmin bs) nb w | EngPy => pyhist (binnum x dmin bs) nb w end) as [hist rev].
+    injection H as <-. cbn [o_params o_sort o_wsort p_dmin p_bsize] in *.
+    destruct (limits_facts lo hi dmin dmax w Flo Fhi L) as (Fm & FM & Ew & Bw).
+    unfold contracts. cbn [o_params o_sort o_wsort p_dmin p_bsize].
+    split; [apply (argsort_ordered x x_fin)|]. split; [exact Ew|].
+    assert (E : forall k, binnum x dmin bs k = int64_min /\ bin_index dmin bs (fget x k) = int64_min).
+    { intros k. unfold binnum, bin_index. apply div_zero_int64_min. exact ZB. }
+    split.
+    - intros k _. destruct (E k) as [-> ->]. reflexivity.
+    - apply (sorted_const _ int64_min). intros k _. apply E.
+  Qed.
+
   (* the property on the data themselves, no monitored hypothesis left *)
   Theorem holds_finite eng lo hi m o :
     finite_opt lo = true -> finite_opt hi = true ->
@@ -135,5 +165,18 @@ Theorem api_holds_finite eng a x lo hi k nb o :
 Proof.
   intros Fx Flo Fhi H POK. unfold histogram_api in H. destruct (resolve a k nb) as [m|].
   - apply (holds_finite x Fx eng lo hi m o Flo Fhi H POK).
+  - destruct (limits x (argsort x) lo hi); discriminate.
+Qed.
+
+(* the same with a zero bin size allowed (spec_ok = params_ok or binsize = 0) *)
+Theorem api_holds_finite_all eng a x lo hi k nb o :
+  forallb finite_f x = true -> finite_opt lo = true -> finite_opt hi = true ->
+  histogram_api eng a x lo hi k nb = Ok o -> spec_ok (o_params o) = true ->
+  hist_ok x lo hi (p_dmin (o_params o)) (p_bsize (o_params o)) (p_nbin (o_params o)) (o_hist o) (o_rev o).
+Proof.
+  intros Fx Flo Fhi H SOK. unfold spec_ok in SOK. apply orb_true_iff in SOK.
+  destruct SOK as [POK|ZB]; [apply (api_holds_finite eng a x lo hi k nb o Fx Flo Fhi H POK)|].
+  unfold histogram_api in H. destruct (resolve a k nb) as [m|].
+  - apply (model_meets_spec eng x lo hi m o H). apply (contracts_hold_zero x Fx eng lo hi m o Flo Fhi H ZB).
   - destruct (limits x (argsort x) lo hi); discriminate.
 Qed.
